@@ -134,7 +134,7 @@ Proof. reflexivity. Qed.
 
 (** a search call does not look at the cache: state AND answer are those of a fresh object *)
 Lemma m_step_search cfg st st' o : is_read o = false -> m_step cfg st o = m_step cfg st' o.
-Proof. destruct o; simpl; [reflexivity|reflexivity|discriminate|reflexivity|reflexivity]. Qed.
+Proof. destruct o; simpl; [reflexivity|reflexivity|discriminate|reflexivity|reflexivity|reflexivity]. Qed.
 
 Lemma m_run_reads cfg st rds : forallb is_read rds = true -> m_run cfg st rds = st.
 Proof.
@@ -186,14 +186,16 @@ Definition cache_ok (st : mstate) : Prop := s_flag st = None -> s_maps st = [] /
 
 Lemma m_step_ok cfg st o : cache_ok st -> cache_ok (fst (m_step cfg st o)).
 Proof.
-  intros H. destruct o as [g1 g2 mcs|x sd mcs comp|ds|g1 g2 mcs ch|g1 g2 ch]; simpl.
+  intros H. destruct o as [g1 g2 mcs|x sd mcs comp|ds|g1 g2 mcs ch|g1 g2 ch|x sd ch]; simpl.
   - intros E. discriminate.
   - unfold m_rc. destruct (pick_sides x sd) as [[ga gb]|]; simpl.
     + destruct comp; simpl; intros E; discriminate.
     + intros _. split; reflexivity.
   - exact H.
   - destruct (apply_choices _ ch); simpl; [intros E; discriminate|intros _; split; reflexivity].
-  - destruct (find_mcs_mol_with _ _ _ _ _ ch); simpl; [intros E; discriminate|intros _; split; reflexivity].
+  - unfold mol_tok. destruct (find_mcs_mol_with _ _ _ _ _ ch); simpl; [intros E; discriminate|intros _; split; reflexivity].
+  - destruct (pick_sides x sd) as [[ga gb]|]; [|intros _; split; reflexivity].
+    unfold mol_tok. destruct (find_mcs_mol_with _ _ _ _ _ ch); simpl; [intros E; discriminate|intros _; split; reflexivity].
 Qed.
 
 Lemma m_run_ok cfg ops : forall st, cache_ok st -> cache_ok (m_run cfg st ops).
@@ -286,8 +288,13 @@ Theorem history_mol st ops g1 g2 choice rds r : forallb is_read rds = true ->
   m_run cfg st (ops ++ MFindMol g1 g2 choice :: rds) = state_of r.
 Proof.
   intros Hr E. rewrite (history_last_search cfg st ops (MFindMol g1 g2 choice) rds eq_refl Hr).
-  cbn [m_step]. rewrite E. reflexivity.
+  cbn [m_step]. unfold mol_tok. rewrite E. reflexivity.
 Qed.
+
+(** ... and through the ITS facade (mcs_mol=True, component=False) it is the same call on the selected sides *)
+Theorem rc_mol_is_find_mol st x sd choice ga gb : pick_sides x sd = Some (ga, gb) ->
+  m_step cfg st (MRcMol x sd choice) = m_step cfg st (MFindMol ga gb choice).
+Proof. intros E. cbn [m_step]. rewrite E. reflexivity. Qed.
 
 (** the ITS facade in non-component mode is find_common_subgraph on the selected sides *)
 Theorem rc_is_find st x sd mcs ga gb : pick_sides x sd = Some (ga, gb) ->
